@@ -31,8 +31,6 @@ PROPERTIES = {
         'functions': ['EventBus.cleanup_event_history', 'EventBus.dispatch', 'EventBus.process_event', 'BaseEvent.event_status', 'BaseEvent.event_completed_at', 'BaseEvent.event_started_at',
                       'EventBus._start', 'CleanShutdownQueue.put_nowait'],
         'trusted_base': [AX[k] for k in ('A1', 'A5', 'A10', 'X1', 'X2', 'P1', 'P5')] + [SERIAL_ONLY,
-            'TRUSTED LEMMA (hand argument, assumed at the entry of the deletion loop of cleanup_event_history): the ids collected in events_to_remove are pairwise distinct keys of the history '
-            '(they are taken from three disjoint status classes of a dict\'s items; sorting permutes, slicing takes a prefix)',
             'history dict representation invariant (distinct keys, insertion order) assumed on reads (A10)',
             'datetimes are ordered by their timestamp() (P1)'],
         'level': 'other',
@@ -42,16 +40,17 @@ PROPERTIES = {
     },
     'C12': {
         'functions': ['EventResult.update', 'BaseEvent.event_result_update', 'BaseEvent._event_result_is_truthy', 'BaseEvent.event_results_filtered', 'EventResult.__await__.wait',
+                      'BaseEvent.event_results_by_handler_id', 'BaseEvent.event_results_by_handler_name', 'BaseEvent.event_result', 'BaseEvent.event_results_list', 'BaseEvent.event_results_flat_list',
                       'EventResult.handler_completed_signal', 'BaseEvent.event_completed_signal', 'bubus.get_handler_id', 'bubus.get_handler_name'],
         'trusted_base': [AX[k] for k in ('A1', 'A3', 'A6', 'A9', 'A10', 'X1', 'X2')] + [
             'A9: validates_ok(T, v) / validated(T, v) are pydantic\'s verdict and coerced value for (declared type, returned value): uninterpreted, deterministic; '
             'model_validate for BaseModel classes, TypeAdapter(T).validate_python otherwise; a TypeAdapter that cannot be built accepts nothing',
             'EventResult(...) constructor = pydantic model init (fields set from keywords, defaults otherwise)',
-            'include filters are pure user predicates (uninterpreted, total)',
-            'awaiting a single EventResult (EventResult.__await__): contract assumed'],
-        'not_decided': ['the accessor VIEWS: that event_results_filtered returns exactly the included results in handler order, and the six wrappers (event_result, _list, _by_handler_id, _by_handler_name, '
-                        '_flat_dict, _flat_list, raise_if_conflicts) are NOT under contract: the dict-comprehension view equalities did not discharge within budget (solver unknown) and were removed rather than '
-                        'claimed; decided for the accessors: they raise a recorded error only under raise_if_any, ValueError only under raise_if_none, never return an empty view under raise_if_none',
+            'include filters are pure user predicates (uninterpreted, total, a function of the result object); a lambda handed to an inner accessor means its body, evaluated on the heap at the return of that call',
+            'the accessor wrappers are stated over the ghost `last_view` = the dict returned by their inner event_results_filtered call (set at the call site)'],
+        'not_decided': ['event_results_flat_dict (merging of the returned dict VALUES, raise_if_conflicts): not under contract - no model of dict.update / key-view intersection on values of type Any; '
+                        'event_results_flat_list IS under contract: a returned list is an object with the heap field list_items, the result is the concatenation of those lists in handler order '
+                        '(positional clauses over ghost offsets)',
                         'conformance of pydantic itself (A9) - a bounded table-driven stand-in is not included'],
         'assumptions': [],
     },
@@ -64,15 +63,15 @@ PROPERTIES = {
         'assumptions': [],
     },
     'C03': {
-        'functions': ['BaseEvent.__await__.wait', 'EventBus.process_event', 'CleanShutdownQueue.get_nowait', 'BaseEvent.event_completed_signal', 'BaseEvent.event_mark_complete_if_all_handlers_completed', 'BaseEvent.event_are_all_children_complete', 'BaseEvent.event_children'] + ['BaseEvent.event_completed_at', 'BaseEvent.event_status', 'EventBus._execute_handlers', 'EventBus._get_applicable_handlers'],
+        'functions': ['BaseEvent.__await__.wait', 'EventBus.process_event', 'CleanShutdownQueue.get_nowait', 'BaseEvent.event_completed_signal', 'BaseEvent.event_mark_complete_if_all_handlers_completed', 'BaseEvent.event_are_all_children_complete', 'BaseEvent.event_children', 'BaseEvent.event_children#body'] + ['BaseEvent.event_completed_at', 'BaseEvent.event_status', 'EventBus._execute_handlers', 'EventBus._get_applicable_handlers'],
         'level': 'other',
-        'trusted_base': AWAIT_TB + ['event_are_all_children_complete: verified with an inductive contract over its visited set, assuming P6 (distinct events have distinct event_id); event_children: view contract assumed'],
+        'trusted_base': AWAIT_TB + ['event_are_all_children_complete: verified with an inductive contract over its visited set, assuming P6 (distinct events have distinct event_id); event_children: the view clauses used by callers are verified against its body (contract BaseEvent.event_children#body, positional invariant with ghost offsets)'],
         'not_decided': ['"always returns" and "the waiter is released without further stimulus" are liveness; the converse direction is stated for the direct parent only '
                         '(process_event/ensures:completion_propagated_to_parent, open finding F11), not for the whole ancestor chain'],
         'assumptions': [],
     },
     'C04': {
-        'functions': ['BaseEvent.__await__.wait', 'EventBus.process_event', 'CleanShutdownQueue.get_nowait', 'BaseEvent.event_completed_signal', 'BaseEvent.event_mark_complete_if_all_handlers_completed', 'BaseEvent.event_are_all_children_complete', 'BaseEvent.event_children'] + ['ReentrantLock.__aenter__', 'ReentrantLock.__aexit__'],
+        'functions': ['BaseEvent.__await__.wait', 'EventBus.process_event', 'CleanShutdownQueue.get_nowait', 'BaseEvent.event_completed_signal', 'BaseEvent.event_mark_complete_if_all_handlers_completed', 'BaseEvent.event_are_all_children_complete', 'BaseEvent.event_children', 'BaseEvent.event_children#body'] + ['ReentrantLock.__aenter__', 'ReentrantLock.__aexit__'],
         'level': 'other',
         'trusted_base': AWAIT_TB,
         'not_decided': ['deadlock freedom as such (liveness); decided: the handler branch never takes the lock nor calls step(), and what it returns'],
@@ -127,7 +126,7 @@ PROPERTIES = {
                       'EventBus.process_event', 'EventBus._execute_handlers', 'EventBus.execute_handler', 'EventBus.step', 'EventBus._get_next_event',
                       'BaseEvent.event_result_update', 'EventResult.update', 'EventBus._default_wal_handler', 'EventBus._default_log_handler',
                       'BaseEvent.event_mark_complete_if_all_handlers_completed', 'EventBus.cleanup_event_history', 'BaseEvent.event_cancel_pending_child_processing',
-                      'BaseEvent.event_children', 'BaseEvent.event_are_all_children_complete', 'bubus.get_handler_name'],
+                      'BaseEvent.event_children', 'BaseEvent.event_children#body', 'BaseEvent.event_are_all_children_complete', 'bubus.get_handler_name'],
         'level': 'other',
         'trusted_base': [AX[k] for k in ('A1', 'A2', 'A3', 'A5', 'A7', 'A8', 'A9', 'A10', 'X1', 'X2', 'P2', 'P5')] + [SERIAL_ONLY, HANDLER_MODEL,
             'rely (interference at suspension points): terminal results never change, started results are only changed by their own execute_handler, results are never removed from an event',
@@ -149,7 +148,7 @@ PROPERTIES = {
     },
     'C10': {
         'functions': ['BaseEvent.__await__.wait', 'EventBus.execute_handler', 'EventBus._execute_handlers', 'EventBus.process_event', 'EventBus.step', 'EventResult.update', 'BaseEvent.event_result_update',
-                      'BaseEvent.event_cancel_pending_child_processing', 'EventBus._get_next_event'],
+                      'BaseEvent.event_cancel_pending_child_processing', 'EventBus._get_next_event', 'BaseEvent.event_children', 'BaseEvent.event_children#body'],
         
         'trusted_base': [AX[k] for k in ('A1', 'A2', 'A3', 'A5', 'A8', 'A10', 'X1', 'X2')] + [SERIAL_ONLY, HANDLER_MODEL,
             'event_cancel_pending_child_processing: contract assumed (recursive walk), not verified'],
@@ -178,7 +177,7 @@ PROPERTIES = {
     'C08': {
         'functions': ['EventBus.process_event', 'EventResult.update', 'BaseEvent.event_result_update', 'BaseEvent.event_mark_complete_if_all_handlers_completed',
                       'BaseEvent.event_completed_at', 'BaseEvent.event_started_at', 'BaseEvent.event_status', 'BaseEvent.event_completed_signal',
-                      'BaseEvent.event_cancel_pending_child_processing', 'BaseEvent.event_children'],
+                      'BaseEvent.event_cancel_pending_child_processing', 'BaseEvent.event_children', 'BaseEvent.event_children#body'],
         'level': 'other',
         'trusted_base': [AX[k] for k in ('A1', 'A6', 'A10', 'X1', 'X2')],
         'not_decided': ['the two-state invariant "signalled => results frozen" is decided through its writer-side obligations only: no result is created on a signalled event (fails: F4), '
